@@ -6,8 +6,8 @@
 
    Integer arithmetic is exact (the code computes in i128); a result outside
    i64 is replaced by the float operation on the operands converted to f64.
-   Not modelled: duration maps, temporal-string +/- duration, `%` and `^` with
-   a float operand (no fmod/pow in PrimFloat): `v_mod` returns None there. *)
+   Not modelled: duration maps, temporal-string +/- duration, `^` (no pow in PrimFloat).
+   `%` on floats is C fmod, which is exact: computed on the exact keys of Value.v. *)
 From NDB Require Export Cypher.Value.
 Open Scope N_scope.
 
@@ -48,16 +48,40 @@ Definition v_div (l r : value) : value :=
   | _, _ => VNull
   end.
 
-(* None = outside the model (float remainder) *)
+(* the double with exact value r * 2^-1074 (r > 0, assumed representable) *)
+Definition f_of_key_pos (r : Z) : float :=
+  let l := Z.log2 r in
+  let sh := (if l <? 53 then 0 else l - 52)%Z in
+  Z.ldexp (PrimFloat.of_uint63 (Uint63.of_Z (Z.shiftr r sh))) (sh - 1074).
+(* Rust `x % y` on f64 (C fmod; always exact): NaN if x is not finite, y is NaN or y = 0;
+   x if x = +-0 or y is infinite; otherwise sign(x) * (|x| mod |y|), computed on the exact keys *)
+Definition f_rem (x y : float) : float :=
+  match Prim2SF x, Prim2SF y with
+  | S754_nan, _ | _, S754_nan | S754_infinity _, _ | _, S754_zero _ => nan
+  | S754_zero _, _ => x
+  | _, S754_infinity _ => x
+  | S754_finite sx _ _, S754_finite _ _ _ =>
+      match fkey x, fkey y with
+      | Some kx, Some ky =>
+          let r := Z.rem (Z.abs kx) (Z.abs ky) in
+          if (r =? 0)%Z then (if sx then (-0)%float else 0%float)
+          else if sx then PrimFloat.opp (f_of_key_pos r) else f_of_key_pos r
+      | _, _ => nan
+      end
+  end.
+
+(* numeric_mod; the result is always Some (the option type is kept for callers that
+   treat None as "outside the model") *)
 Definition v_mod (l r : value) : option value :=
   match l, r with
   | VNull, _ | _, VNull => Some VNull
   | _, VInt 0 => Some VNull
   | VInt x, VInt y => Some (VInt (Z.rem x y))
-  | (VInt _ | VFloat _), VFloat g =>
-      match fkey g with Some 0%Z => Some VNull | _ => None end
-  | VFloat _, VInt _ => None
-  | _, VFloat g => Some VNull
+  | VInt x, VFloat g =>
+      match fkey g with Some 0%Z => Some VNull | _ => Some (VFloat (f_rem (f_of_int x) g)) end
+  | VFloat f, VFloat g =>
+      match fkey g with Some 0%Z => Some VNull | _ => Some (VFloat (f_rem f g)) end
+  | VFloat f, VInt y => Some (VFloat (f_rem f (f_of_int y)))
   | _, _ => Some VNull
   end.
 
